@@ -17,6 +17,7 @@ type cellPayload struct {
 func addOverflow(db *Database, pl cellPayload) ([]byte, error) {
 	to := pl.Payload
 	overflow := pl.Overflow
+	var seen map[int]struct{}
 	for {
 		if overflow == 0 || int64(len(to)) >= pl.Length {
 			// Stop as soon as the payload is complete: a chain that is longer
@@ -27,6 +28,15 @@ func addOverflow(db *Database, pl cellPayload) ([]byte, error) {
 			}
 			return to[:pl.Length], nil
 		}
+		// A chain never visits a page twice; a loop would otherwise be followed
+		// for as long as the declared payload length says.
+		if _, ok := seen[overflow]; ok {
+			return nil, ErrCorrupted
+		}
+		if seen == nil {
+			seen = map[int]struct{}{}
+		}
+		seen[overflow] = struct{}{}
 		buf, err := db.page(overflow)
 		if err != nil {
 			return nil, err
